@@ -242,7 +242,7 @@ Lemma run_absent f : forall absent st,
 Proof.
   induction absent as [|n absent IH]; intro st; [reflexivity|].
   cbn [map absent_action run_actions]. rewrite cut_off_plain. cbn [setup]. unfold setup_step at 1.
-  cbn [andb negb]. rewrite with_env_self. apply IH.
+  cbn [andb negb]. apply IH.
 Qed.
 
 (* the whole replay *)
